@@ -14,7 +14,7 @@
       vftable pointer region and placeholder slots are private.
     The correspondence compares vis / derive / repr / doc of every emitted node with the real output. *)
 From Coq Require Import List NArith ZArith Bool String.
-From PyxisModel Require Import Base Sexp Grammar SemTypes Registry Sem SemLemmas PlacementLemmas Emit EmitLemmas.
+From PyxisModel Require Import Base Sexp Grammar SemTypes Registry Sem SemLemmas PlacementLemmas Emit EmitLemmas WholeBuild WholeBuildMore.
 Import ListNotations.
 
 Theorem C17_markers : forall attrs ta,
@@ -70,3 +70,32 @@ Print Assumptions C17_vftable_pointer_and_placeholders_private.
 Example C17_doc_example :
   doc_lines (Some (join_lines [""; " b"; ""]%string)) = [""; " b"; ""]%string.
 Proof. reflexivity. Qed.
+
+(** ** End to end (WholeBuildMore.v): the per-attempt theorems above, for every item of every accepted
+    [collision_free] build, in terms of the FINAL registry *)
+Theorem C17_whole_build_markers : forall order ptr mods st0 st p it0 gd td0 it r,
+  input_state ptr mods = Ok st0 -> collision_free (st_reg st0) ->
+  pyxis_resolve order ptr mods = BOk st ->
+  reg_get (st_reg st0) p = Some it0 -> it_state it0 = Unresolved gd -> gi_inner gd = GIType td0 ->
+  reg_get (st_reg st) p = Some it -> it_state it = Resolved r ->
+  exists td, rs_inner r = IType td /\
+    td_copyable td = has_marker "copyable" (gt_attrs td0) /\
+    td_cloneable td = has_marker "copyable" (gt_attrs td0) || has_marker "cloneable" (gt_attrs td0) /\
+    td_defaultable td = has_marker "defaultable" (gt_attrs td0) /\
+    td_packed td = has_marker "packed" (gt_attrs td0) /\
+    (td_packed td = true -> rs_align r = 1%N).
+Proof. exact WholeBuildMore.C17_whole_build_markers. Qed.
+Print Assumptions C17_whole_build_markers.
+
+Theorem C17_whole_build_enum_markers : forall order ptr mods st0 st p it0 gd ed0 it r,
+  input_state ptr mods = Ok st0 -> collision_free (st_reg st0) ->
+  pyxis_resolve order ptr mods = BOk st ->
+  reg_get (st_reg st0) p = Some it0 -> it_state it0 = Unresolved gd -> gi_inner gd = GIEnum ed0 ->
+  reg_get (st_reg st) p = Some it -> it_state it = Resolved r ->
+  exists ed, rs_inner r = IEnum ed /\
+    ed_copyable ed = has_marker "copyable" (ged_attrs ed0) /\
+    ed_cloneable ed = has_marker "copyable" (ged_attrs ed0) || has_marker "cloneable" (ged_attrs ed0) /\
+    ed_defaultable ed = has_marker "defaultable" (ged_attrs ed0).
+Proof. exact WholeBuildMore.C17_whole_build_enum_markers. Qed.
+Print Assumptions C17_whole_build_enum_markers.
+
